@@ -97,19 +97,22 @@ pub fn install_panic_hook() {
         } else {
             "<non-string payload>".to_string()
         };
-        LAST_PANIC.with(|p| *p.borrow_mut() = Some((msg, loc)));
+        // try_with: panics are also caught while a thread is being torn down
+        let _ = LAST_PANIC.try_with(|p| *p.borrow_mut() = Some((msg, loc)));
     }));
 }
 
 /// Run `f` under the panic monitor.
 pub fn monitored<T>(f: impl FnOnce() -> T) -> Result<T, PanicInfo> {
-    LAST_PANIC.with(|p| *p.borrow_mut() = None);
+    let _ = LAST_PANIC.try_with(|p| *p.borrow_mut() = None);
     match catch_unwind(AssertUnwindSafe(f)) {
         Ok(v) => Ok(v),
         Err(payload) => {
             let np = payload.downcast_ref::<NoProgress>().is_some();
             let (message, location) = LAST_PANIC
-                .with(|p| p.borrow_mut().take())
+                .try_with(|p| p.borrow_mut().take())
+                .ok()
+                .flatten()
                 .unwrap_or_else(|| ("?".into(), "?".into()));
             Err(PanicInfo {
                 message,
